@@ -14,7 +14,9 @@ EXTENDS Integers, Sequences, FiniteSets, Folds, Functions, SequencesExt, FiniteS
 At(s, i)   == s[i + 1]
 N(s)       == Len(s)
 Idx(s)     == 0 .. (Len(s) - 1)
-Slice(s, a, b) == [k \in 1 .. (IF b > a THEN b - a ELSE 0) |-> s[a + k]]   \* numpy s[a:b], 0 <= a, b <= len
+\* TLC builds [i \in S |-> e] lazily and re-evaluates e on every application; Strict forces a real tuple once
+Strict(s)  == SubSeq(s, 1, Len(s))
+Slice(s, a, b) == Strict([k \in 1 .. (IF b > a THEN b - a ELSE 0) |-> s[a + k]])   \* numpy s[a:b], 0 <= a, b <= len
 
 Min2(a, b) == IF a <= b THEN a ELSE b
 Max2(a, b) == IF a >= b THEN a ELSE b
